@@ -10,6 +10,8 @@ The evidence file evidence/<ID>.json is rewritten on every (non-replay) run.
 """
 import argparse
 import collections
+import contextlib
+import io
 import concurrent.futures
 import hashlib
 import importlib
@@ -242,7 +244,7 @@ def _execute(mod, sub, case, known, out, suppressed, seen):
     try:
         with warnings.catch_warnings():
             warnings.simplefilter("ignore")
-            with np.errstate(all="ignore"):
+            with np.errstate(all="ignore"), contextlib.redirect_stdout(io.StringIO()):   # flowdyn / aerokit print diagnostics
                 obs = sub.check(case) or {}
     except Skip as s:
         out["skipped"][s.reason] += 1
@@ -579,6 +581,8 @@ def main(argv=None):
             print("   %-28s %s" % (k, v))
         for k, v in sorted(skipped.items()):
             print("   skipped %-40s %d" % (k, v))
+        for k, v in sorted(margins.items()):
+            print("   margin  %-40s %.6g" % (k, v))
     return rc
 
 
